@@ -83,6 +83,10 @@ def record_source(shape):
   return f"_record({{{named}}}, {args}, {kw})"
 
 
+class ProbeRaised(Exception):
+  """Raised by a probe body when one of the values it receives is the string 'RAISE'."""
+
+
 class Built:
 
   def __init__(self, shape, module, original, cfg_call, direct_call, selector, cls=None,
@@ -127,6 +131,9 @@ def build(shape, gin, lists_on='target'):
   mod.LOG = []
 
   def _record(named, args, kw):
+    if any(isinstance(v, str) and v == 'RAISE'
+           for v in list(named.values()) + list(args) + list(kw.values())):
+      raise ProbeRaised('the body raises after receiving its arguments')
     rec = {'named': named, 'args': args, 'kw': kw, 'scope': gin.current_scope_str(),
            'n': len(mod.LOG)}
     mod.LOG.append(rec)
